@@ -2,8 +2,10 @@
 
   c18.code   {"world": [cls…], "val": V, "var": "obj"}
              → {"ok": {"text": source, "outcome": "equal|unequal|exc:<T>|unmodelled",
-                        "hyps": {"wf","dom","setfree","imports"}, "imports": [[module, name]…]}}
+                        "hyps": {"wf","dom","imports"}, "imports": [[module, name]…]}}
   c18.json   {"s": "..."}  → {"ok": json.dumps(s, ensure_ascii=False)}
+  c18.qnamecp {"cps": [code points]} → {"ok": {"body": text between QName(" and "), "back": decoded code points}}
+  c18.dqcp   {"s": "..."}  → {"ok": [code points]} | {"err": "unmodelled"}   (as c18.dq, surrogates allowed)
   c18.dq     {"s": "..."}  → {"ok": decoded} | {"err": "unmodelled"}   (body of a "…" literal)
   c18.pyeq   {"world": [], "a": V, "b": V} → {"ok": bool}
 -/
@@ -107,8 +109,7 @@ def run (op : String) (a : Json) : Option (Except String Json) :=
         ("text", jStr (source W v var)),
         ("outcome", jStr (outcome W v)),
         -- the hypotheses of Props.C18.code_rt_partial on this input
-        ("hyps", jObj [("wf", jBool (wf W v)), ("dom", jBool (domOK W v)), ("setfree", jBool (setFree v)),
-                       ("imports", jBool (importsOK W v))]),
+        ("hyps", jObj [("wf", jBool (wf W v)), ("dom", jBool (domOK W v)), ("imports", jBool (importsOK W v))]),
         ("imports", jList (fun p => Json.arr #[jStr p.1, jStr p.2]) (importsEnv W v))])
   | "c18.dq" => some do
       let s ← getStr a "s"
@@ -125,6 +126,20 @@ def run (op : String) (a : Json) : Option (Except String Json) :=
         ("back", match decodeDq .normal (jsonBody s) with
           | some t => jStr t
           | none => Json.str "EXC:unmodelled")])
+  | "c18.qnamecp" => some do
+      -- QName text given by its code points (lone surrogates allowed)
+      let cps ← (← getArr a "cps").mapM fun j => match j.getNat? with
+        | .ok n => pure n
+        | .error _ => .error "bad code point"
+      pure <| ok (jObj [("body", jStr (qnameLitBody cps)),
+        ("back", match decodeCp .normal (qnameLitBody cps) with
+          | some t => jList jNat t
+          | none => Json.null)])
+  | "c18.dqcp" => some do
+      let s ← getStr a "s"
+      pure <| match decodeCp .normal s with
+        | some t => ok (jList jNat t)
+        | none => err "unmodelled"
   | "c18.pyeq" => some do
       let x ← getVal (a.getObjValD "a")
       let y ← getVal (a.getObjValD "b")
